@@ -117,7 +117,7 @@ class Orc:
                 elif kind == 's':
                     sl = css.SelectorList()
                     sl.selectorText = (list(toks), ns_of_key(parts[1]))
-                    self.table[q] = (['1' if sl.wellformed else '0'], sl.selectorText if sl.wellformed else None)
+                    self.table[q] = (['1' if sl.wellformed else '0'], sel_canon(sl) if sl.wellformed else None)
                 elif kind == 'm':
                     ml = cu().stylesheets.MediaList()
                     ml.mediaText = list(toks)
@@ -158,6 +158,13 @@ class Orc:
 
     def text(self, q):
         return self.table[q][1]
+
+
+def sel_canon(sl):
+    """selector list as item sequences; namespaced names are (uri, name) pairs, so this does not depend on
+    which prefixes the sheet happens to declare at serialisation time (selectorText does)"""
+    return ' , '.join(' '.join('%s:%s' % (i.type, i.value if isinstance(i.value, str) else '|'.join(map(str, i.value)))
+                               for i in sel.seq) for sel in sl.seq)
 
 
 def shown_queries(tree, in_media=False):
@@ -207,7 +214,7 @@ def proj_rules_real(rules):
     for r in rules:
         k = TYPE_NAMES.get(r.type, str(r.type))
         if k == 'style':
-            out.append(('style', r.selectorText, proj_items_real(r.style)))
+            out.append(('style', sel_canon(r.selectorList), proj_items_real(r.style)))
         elif k == 'media':
             out.append(('media', r.media.mediaText, r.name, proj_rules_real(r.cssRules)))
         elif k == 'namespace':
